@@ -136,6 +136,11 @@ func (d *PathDecoder) candidatesFromHooks(ctx context.Context, attr *hclsyntax.A
 		// (with whitespace in between)
 		editRng.Start = pos
 	}
+	if editRng.End.Byte < pos.Byte {
+		// an incomplete expression may end before the position
+		// (e.g. trailing dots which the parser leaves out)
+		editRng.End = pos
+	}
 	prefixRng := attr.Expr.Range()
 	prefixRng.End = pos
 	if prefixRng.Start.Byte > pos.Byte {
